@@ -12,8 +12,19 @@ from collections import OrderedDict
 import numpy as np
 import scipy.interpolate as inter
 import h5py
+import dill
 
 from srlife import writers
+
+
+@dill.register(np.memmap)
+def _pickle_paged_array(pickler, obj):
+    """Send results paged to disk to worker processes by value
+
+    The worker pools serialize tubes with dill, which cannot pickle the
+    memory map behind an np.memmap
+    """
+    pickler.save_reduce(np.array, (np.asarray(obj),), obj=obj)
 
 
 class Receiver:
